@@ -21,7 +21,7 @@ prop("C20",
           "header-counter multiset {1..k}, status and pass-on; (3) readers of Count/EndTime and /reqcount against a writer that restarts the "
           "interval, under the race detector. Non-trivial = a sequence crossing >=1 interval boundary with >=2 addresses and one over quota, "
           "a concurrent middleware case with >=2 addresses exceeding the quota, or a race round; distinct by hash of the case.",
-     race=True, quick=dict(shards=1, timeout=300), thorough=dict(shards=8, timeout=900),
+     race=True, quick=dict(shards=1, timeout=300), thorough=dict(shards=8, timeout=900, pct=1500),
      assumptions=COMMON + ["the interval restarts at the first request after it elapsed (documented by ResetTime/EndTime); the single instant "
                            "'exactly one interval after the restart' is stepped over because the statement does not decide it",
                            "schedules of concurrent requests are sampled by the Go scheduler, not enumerated"])
@@ -33,7 +33,7 @@ prop("C04",
           "0, +-1, +-2 ms and up to +-1 segment. Oracle: status from the integer reference model (425 before A_n, 200 on [A_n, A_n+tsbd], "
           "410 one hour after at the latest), monotone 425*200*410*, 425 body = remaining ms; 404 for number<startNumber, unknown "
           "representation, unknown asset. Non-trivial = a sweep that observed >= 2 different phases; distinct by hash of the case.",
-     quick=dict(shards=2, timeout=300), thorough=dict(shards=16, timeout=1500),
+     quick=dict(shards=2, timeout=300), thorough=dict(shards=16, timeout=1500, pct=350),
      assumptions=COMMON + ["instants within 0.01 ms of a breakpoint that is not a whole second accept both neighbouring answers (float64 seconds in the code)",
                            "'gone' is required one hour after A_n+tsbd at the latest; the exact 10 s margin is not asserted"])
 
@@ -45,7 +45,7 @@ prop("C01",
           "sample list incl. payload located through trun.data_offset, sidx, byte-identical thumbnails, TTML timestamps moved by round(offset), "
           "identical bytes for all three addressing modes, and segment n+1 starting where n ends. Non-trivial = w>=1, tfdt>=2^32, a wrap pair, "
           "or start/startNumber != 0; distinct by hash of the case.",
-     quick=dict(shards=2, timeout=300), thorough=dict(shards=16, timeout=1500), assumptions=COMMON)
+     quick=dict(shards=2, timeout=300), thorough=dict(shards=16, timeout=1500, pct=400), assumptions=COMMON)
 
 prop("C03",
      rule="rapid draws (asset with audio: bundled, or generated layout with AAC-1024 / AC-3-1536 frames, audio grid following the video grid, "
@@ -55,7 +55,7 @@ prop("C03",
           "(T-ceilF(wL))/F or the last VoD frame when past the VoD audio; payload comparison with the VoD frames; n+1 abuts; Number==Time bytes; "
           "the MPD's audio SegmentTimeline equals the model for every listed entry. Non-trivial = segment adjacent to a wrap, with padding, or "
           "whose frames span two VoD audio segments; distinct by hash of the case.",
-     quick=dict(shards=2, timeout=300), thorough=dict(shards=16, timeout=1500), assumptions=COMMON)
+     quick=dict(shards=2, timeout=300), thorough=dict(shards=16, timeout=1500, pct=350), assumptions=COMMON)
 
 prop("C02",
      rule="rapid draws (asset bundled/generated incl. text and thumbnail adaptation sets, MPD name, type Number/Timeline-Time/Timeline-Number, "
@@ -66,7 +66,7 @@ prop("C02",
           "the same instant: 200 with the declared time/duration/number; the segment after the live edge: 425; timeline contiguous, newest "
           "entry = newest ended segment by the reference model, first entry within one segment of the window start. Non-trivial = an MPD "
           "declaring >= 2 segments; distinct by hash of the case.",
-     quick=dict(shards=2, timeout=400), thorough=dict(shards=16, timeout=1500),
+     quick=dict(shards=2, timeout=400), thorough=dict(shards=16, timeout=1500, pct=500),
      assumptions=COMMON + ["$Number$ templates on assets with non-constant durations are judged within the asset's duration variation, as the property states",
                            "single period only (multi-period is C06)"])
 
@@ -78,7 +78,7 @@ prop("C05",
           "the availability instant of the newest listed segment (ms), equal publishTime => byte-identical documents, plain $Number$ single "
           "period => all documents identical, after stop => static with duration stop-start and unchanging. Non-trivial = a set whose "
           "instants are separated by >= 1 breakpoint (live edge differs); distinct by hash of the case.",
-     quick=dict(shards=2, timeout=400), thorough=dict(shards=16, timeout=1500),
+     quick=dict(shards=2, timeout=400), thorough=dict(shards=16, timeout=1500, pct=400),
      assumptions=COMMON + ["publishTime is compared at millisecond resolution (floor..ceil of the exact change instant)"])
 
 prop("C06",
@@ -89,7 +89,7 @@ prop("C06",
           "every single-period segment starting at or after the first period start appears exactly once in the period containing its start "
           "with the same time/duration/number, no extra segments, per-period URLs return the same bytes, continuity signalled iff requested, "
           "incompatible values rejected. Non-trivial = an MPD with >= 2 periods of which >= 2 non-empty; distinct by hash of the case.",
-     quick=dict(shards=2, timeout=400), thorough=dict(shards=16, timeout=1500),
+     quick=dict(shards=2, timeout=400), thorough=dict(shards=16, timeout=1500, pct=400),
      assumptions=COMMON + ["start_ = 0 (the statement gives period starts in wall-clock terms); tsbd >= 2 segment durations"])
 
 prop("C18",
@@ -101,7 +101,7 @@ prop("C18",
           "complete mdat, trailing bytes at EOF, init flag = top-level moov header seen, Start = chunk offset; injected errors returned; "
           "termination within 20 s; bounded buffer growth for well-formed streams. Non-trivial = stream with >= 2 callbacks read with a read "
           "boundary inside a box header; distinct by hash of the case.",
-     quick=dict(shards=2, timeout=300), thorough=dict(shards=16, timeout=1500),
+     quick=dict(shards=2, timeout=300), thorough=dict(shards=16, timeout=1500, pct=600),
      assumptions=COMMON + ["declared box sizes above 16 MiB are not generated in-process (allocation from a 4-byte field, see DESIGN)",
                            "a box with size < 8 must make Parse terminate with an error or with everything delivered"])
 
@@ -114,7 +114,7 @@ prop("C14",
           "for every second of 3 cycles (near 0 and near 1.7e9), MPD offers one BaseURL per pattern, HTTP: up = plain answer, down = 404 "
           "(slow/hang sampled in the thorough tier with a one-sided elapsed-time bound). Non-trivial = a status-code sweep with >= 1 hit and "
           ">= 1 miss in a cycle k >= 1, or a traffic case with >= 2 BaseURLs; distinct by hash of the case.",
-     quick=dict(shards=2, timeout=400), thorough=dict(shards=16, timeout=1500), assumptions=COMMON)
+     quick=dict(shards=2, timeout=400), thorough=dict(shards=16, timeout=1500, pct=400), assumptions=COMMON)
 
 prop("C13",
      rule="(1) library: rapid draws contiguous segment grids (6 timescales, 16 segment durations 0.5..10 s incl. 1.5/1.92/2.002/3.84 s and "
@@ -124,7 +124,7 @@ prop("C13",
           "splice_info_section (pts mod 2^33, break duration, out_of_network, CRC-32/MPEG-2). (2) HTTP: bundled/generated assets, all video "
           "segments over 3 minutes with scte35_N: same oracle; no emsg in audio; InbandEventStream on video only; N outside 1..3 rejected "
           "with 4xx. Non-trivial = a case in which a segment spans a minute start or the announce instant equals a segment boundary.",
-     quick=dict(shards=2, timeout=400), thorough=dict(shards=16, timeout=1500), assumptions=COMMON)
+     quick=dict(shards=2, timeout=400), thorough=dict(shards=16, timeout=1500, pct=300), assumptions=COMMON)
 
 prop("C12",
      rule="rapid draws (asset whose video boundaries are whole ms: bundled incl. the 2.002 s asset and alternating 4/8 s, or generated layouts; "
@@ -135,7 +135,7 @@ prop("C12",
           "readings of 'configured duration, clipped', text = UTC second + language + number, ordered, non-overlapping, inside; wvtt samples "
           "tile the segment with vtte samples in the gaps; region; MPD: one text set per language mirroring the video timeline in ms. "
           "Non-trivial = segment with >= 2 cues or a boundary off the whole second.",
-     quick=dict(shards=2, timeout=400), thorough=dict(shards=16, timeout=1500),
+     quick=dict(shards=2, timeout=400), thorough=dict(shards=16, timeout=1500, pct=400),
      assumptions=COMMON + ["assets whose video segment boundaries are not whole milliseconds are outside the domain (the subtitle track runs on a 1000 Hz timescale)"])
 
 prop("C11",
@@ -147,7 +147,7 @@ prop("C11",
           "dropped at the start / repeat changed / inserted in the middle, attributes changed/added/removed, periods appended/dropped, "
           "adaptation sets and representations added/removed, descriptor values changed): old+patch == new; panics are violations, "
           "rejections by the diff are counted. Non-trivial = a patch with >= 2 operations or one that both adds and removes.",
-     quick=dict(shards=2, timeout=400), thorough=dict(shards=16, timeout=1500), assumptions=COMMON)
+     quick=dict(shards=2, timeout=400), thorough=dict(shards=16, timeout=1500, pct=400), assumptions=COMMON)
 
 prop("C10",
      rule="rapid draws (encryptable asset: bundled AVC/AAC assets or generated layouts; video or audio representation incl. re-segmented audio; "
@@ -158,7 +158,7 @@ prop("C10",
           "URL and instant; ciphertext must differ from the clear payload. Plus: an asset built from livesim2's own encrypted output is "
           "refused with eccp_cenc/eccp_cbcs (MPD and segments, Number and Time). Non-trivial = a segment with protected payload that decrypted "
           "to the clear samples; distinct by hash of the case.",
-     quick=dict(shards=2, timeout=400), thorough=dict(shards=16, timeout=1500),
+     quick=dict(shards=2, timeout=400), thorough=dict(shards=16, timeout=1500, pct=800),
      assumptions=COMMON + ["mp4ff's DecryptInit/DecryptSegment are the decryptor (trusted third-party code, separate from the encrypt path)",
                            "CPIX: only the two packages of pkg/drm/testdata exist offline"])
 
@@ -171,7 +171,7 @@ prop("C09",
           "with the segment's number, no chunk longer than segment duration - ato + one sample, one flush per chunk, no chunk flushed before "
           "its media end minus 2 ms (one-sided), request before the advertised availability time -> 425. Non-trivial = a response with >= 2 "
           "chunks (paced: of which >= 1 had to wait); distinct by hash of the case.",
-     quick=dict(shards=2, timeout=400), thorough=dict(shards=16, timeout=1500),
+     quick=dict(shards=2, timeout=400), thorough=dict(shards=16, timeout=1500, pct=300),
      assumptions=COMMON + ["timing is judged one-sided (a chunk may be late, never early); no upper latency bound is asserted"])
 
 prop("C15",
@@ -183,7 +183,7 @@ prop("C15",
           "identical status/content-type/body, or 404 for an asset whose cache is damaged, or the server refuses to start; inadmissible assets "
           "are served by no server; the cache-loaded SegmentTimelines over two loops are contiguous. Non-trivial = a case with a damaged "
           "cache file or an inadmissible asset; distinct by hash of the case.",
-     quick=dict(shards=4, timeout=400), thorough=dict(shards=16, timeout=1500), assumptions=COMMON)
+     quick=dict(shards=4, timeout=400), thorough=dict(shards=16, timeout=1500, pct=500), assumptions=COMMON)
 
 prop("C08",
      rule="rapid draws requests against a panic-transparent copy of the livesim2 router (every route found by chi.Walk mounted without middlewares; "
@@ -202,7 +202,7 @@ prop("C08",
           "methods, empty and random bodies, MPD uploads. Oracle: the handler returns within 10 s without panic with a deliberate status, the "
           "channel goroutine drains its queue (hook VerifQuiesce), the process survives, and a well-formed stream uploaded afterwards on a "
           "fresh channel is accepted and stored.",
-     quick=dict(shards=2, timeout=400), thorough=dict(shards=16, timeout=1500), crash_is_violation=True, rlimit_as_gb=6,
+     quick=dict(shards=2, timeout=400), thorough=dict(shards=16, timeout=1500, pct=200), crash_is_violation=True, rlimit_as_gb=6,
      assumptions=COMMON + ["traffic patterns are requested at instants in up/down states only (slow/hang sleep by design)",
                            "upload bodies: declared top-level box sizes between 16 MiB and the 32-bit limit are cut to 24 bits (the chunk parser allocates what a header declares, DESIGN O6); "
                            "declared table counts above 10^6 are cut to 10^6 (known finding KF-C08-rx-declared-counts, excluded by construction and counted); Content-Length is honest",
@@ -218,7 +218,7 @@ prop("C17",
           "for every track with equal (t,d), every track represented, newest listed number never decreases, buffers/counters/storage within "
           "the window implied by tsbd, and after the catch-up the newest listed number is the last one. The thorough tier adds all 70 "
           "interleavings of 2 tracks x 4 segments. Non-trivial = a schedule where two tracks are >= 2 segments apart, or with a gap/duplicate.",
-     quick=dict(shards=2, timeout=400), thorough=dict(shards=16, timeout=1500), crash_is_violation=True,
+     quick=dict(shards=2, timeout=400), thorough=dict(shards=16, timeout=1500, pct=150), crash_is_violation=True,
      assumptions=COMMON + ["uploads are unshifted (sequence number = decode time / duration); the MediaLive-style renumbering path is not generated",
                            "the receiver's channel goroutine is observed through the build-tag hook verif_hooks.go (VerifQuiesce, VerifChannelState)"])
 
@@ -231,7 +231,7 @@ prop("C19",
           "upload stored under its own track with its own bytes, the final MPD lists every track and, reduced to what must not depend on the "
           "arrival order (per representation: kind, timescale, numbers, (t,d)), equals the sequential run's. Every case starts >= 2 tracks of "
           "a new channel simultaneously (non-trivial by construction); distinct by hash of the case.",
-     race=True, crash_is_violation=True, quick=dict(shards=2, timeout=500), thorough=dict(shards=8, timeout=1500),
+     race=True, crash_is_violation=True, quick=dict(shards=2, timeout=500), thorough=dict(shards=8, timeout=1500, pct=200),
      assumptions=COMMON + ["interleavings are sampled by the Go scheduler (barriers and repetition raise the odds); absence of races is not established"])
 
 prop("C16",
@@ -244,7 +244,7 @@ prop("C16",
           "byte-identical to livesim2's own response for that segment (the last one up to the lmsg brand), duration d => d/segDur segments "
           "with lmsg on the last, nothing after delete/finish, and every API call returns. Non-trivial = a history with >= 3 effective steps "
           "on a session with >= 2 representations.",
-     quick=dict(shards=2, timeout=500), thorough=dict(shards=16, timeout=1500), crash_is_violation=True,
+     quick=dict(shards=2, timeout=500), thorough=dict(shards=16, timeout=1500, pct=500), crash_is_violation=True,
      assumptions=COMMON + ["step mode (testNowMS) only; real-time pacing and chunked sessions are not exercised in this check",
                            "startNumber 0 (the sender's numbering with snr_ is outside the checked domain)"])
 
@@ -257,7 +257,7 @@ prop("C07",
           "(twice), on an instance loaded from representation-data files, and when the multiset is served 1-3 times by 2-16 concurrent "
           "workers on both instances. The binary is built with the race detector; any race report or process death is a violation. "
           "Non-trivial = at least 4 distinct URLs of which at least 3 answered 200.",
-     quick=dict(shards=4, timeout=600), thorough=dict(shards=16, timeout=1700), race=True, crash_is_violation=True,
+     quick=dict(shards=4, timeout=600), thorough=dict(shards=16, timeout=1700, pct=150), race=True, crash_is_violation=True,
      assumptions=COMMON + ["interleavings are sampled by the Go scheduler (16 cores), not enumerated: absence of races is not established",
                            "requests carry an explicit nowMS; responses that read the wall clock are outside the compared set",
                            "response headers other than Content-Type are not compared"])
